@@ -50,6 +50,7 @@ type Profile struct {
 	WCreate, WInsert, WUpdate, WDelete, WSelect, WRestart, WFail int
 	WUseSwitch, WCreateDB, WShowDB, WBadDB int // multi-database statements (C17)
 	WRaw       int // type-confused / NULL-touching raw SQL (C18)
+	RawMutations bool // raw statements may change the database (model stops following)
 	Values   string // "plain", "mixed", "extreme"
 	FailAnyK bool   // failing multi-row statements may fail at row k>0 (C14)
 	CacheCaps []int // candidates; 0 = default
@@ -518,10 +519,29 @@ func (g *gen) stmtFail(db *MDB, t *MTable) Stmt {
 				}
 			}
 			s := Stmt{Kind: KUpdate, Table: t.Name, Where: w, Set: []SetItem{{t.Cols[vi].Name, v}}}
-			if kind == "upd-size" && g.pf.FailAnyK && g.r.Chance(0.5) {
-				// make only a later row overflow: value that fits rows with short
-				// other columns but not the widest one is hard to aim; use size
-				// that overflows every row (k=0) or rely on >= range above
+			if kind == "upd-size" && g.pf.FailAnyK && g.r.Chance(0.6) {
+				// make only a later row overflow: a value that exactly fits the
+				// first matched row but not a later, wider one
+				first, widest := -1, -1
+				other := func(r *MRow) int {
+					vals := append([]Val(nil), r.Vals...)
+					vals[vi] = Str("")
+					return EncSize(t.Cols, vals)
+				}
+				for _, r := range t.Rows {
+					if !t.match(w, r) {
+						continue
+					}
+					o := other(r)
+					if first < 0 {
+						first = o
+					} else if o > widest {
+						widest = o
+					}
+				}
+				if first >= 0 && widest > first && MaxRowBytes-first > 0 {
+					s.Set[0].V = Str(strings.Repeat("w", MaxRowBytes-first))
+				}
 			}
 			return s
 		}
@@ -575,7 +595,12 @@ func (g *gen) stmtRaw(db *MDB, t *MTable) Stmt {
 		func() string { return "CREATE TABLE x_" + t.Name + " ()" },
 		func() string { return fmt.Sprintf("SELECT %s AS z, count(*) FROM %s GROUP BY z ORDER BY z", col(), t.Name) },
 	}
-	return Stmt{Kind: KRawSQL, SQL: tmpl[g.r.Intn(len(tmpl))]()}
+	for {
+		q := tmpl[g.r.Intn(len(tmpl))]()
+		if g.pf.RawMutations || isSelectText(q) {
+			return Stmt{Kind: KRawSQL, SQL: q}
+		}
+	}
 }
 
 // genStmts appends n statements generated against g.m.
